@@ -60,8 +60,6 @@ class LiteIdentityKeyStore(IdentityKeyStore):
     def saveIdentity(self, recipientId, identityKey):
         q = "DELETE FROM identities WHERE recipient_id=?"
         self.dbConn.cursor().execute(q, (recipientId,))
-        self.dbConn.commit()
-
 
         q = "INSERT INTO identities (recipient_id, public_key) VALUES(?, ?)"
         c = self.dbConn.cursor()
